@@ -13,7 +13,7 @@ let parse_cfg (t : string) : cfg =
   { c_las = nn (ios p.(0)); c_pas = nn (ios p.(1)); c_rid = nn (ios p.(2)); c_hold = nn (ios p.(3));
     c_v4 = String.contains fams '4'; c_v6 = String.contains fams '6';
     c_apr4 = ap.[0] = '1'; c_aps4 = ap.[1] = '1'; c_apr6 = ap.[2] = '1'; c_aps6 = ap.[3] = '1';
-    c_mp4 = p.(6) = "1";
+    c_mp4 = p.(6).[0] = '1'; c_nx4 = String.length p.(6) > 1 && p.(6).[1] = '1';
     c_role = nn (Char.code p.(7).[0] - 48); c_strict = p.(7).[1] = '1';
     c_rr = List.nth rr 0 = "1"; c_cluster = nn (ios (List.nth rr 1));
     c_imp = (match p.(9) with "A" -> ImpAccept | "R" -> ImpRewrite | _ -> ImpReject);
@@ -26,6 +26,7 @@ let parse_cap (t : string) : cap =
   | 'm', [a; s] -> CapMP (nn a, nn s)
   | 'p', [a; s; v] -> CapAddPath (nn a, nn s, nn v)
   | 'r', [v] -> CapRole (nn v)
+  | 'x', [a; s; h] -> CapExtNH (nn a, nn s, nn h)
   | 'u', [v] -> CapUnknown (nn v)
   | _ -> failwith ("bad cap " ^ t)
 
@@ -39,6 +40,7 @@ let parse_msg (s : string) : msg =
     let cs = if caps = "-" then [] else List.map parse_cap (String.split_on_char '+' caps) in
     MOpen { o_ver = nn (ios v); o_asn = nn (ios a); o_hold = nn (ios h); o_id = nn (ios i); o_caps = cs }
   | ["U"; a; w] -> MUpdate (parse_ids a, parse_ids w)
+  | ["P"; r; k; v] -> MPoison (nn (ios r), k = "a", nn (ios v))
   | ["N"; c; s] -> MNotification (nn (ios c), nn (ios s))
   | ["H"; mk; l; t; av] -> MHeader (mk = "1", nn (ios l), nn (ios t), nn (ios av))
   | ["T"; k] -> MTrunc (nn (ios k))
@@ -67,6 +69,7 @@ let cap_str = function
   | CapMP (a, s) -> Printf.sprintf "m%d.%d" (int_of_n a) (int_of_n s)
   | CapAddPath (a, s, v) -> Printf.sprintf "p%d.%d.%d" (int_of_n a) (int_of_n s) (int_of_n v)
   | CapRole r -> Printf.sprintf "r%d" (int_of_n r)
+  | CapExtNH (a, s, h) -> Printf.sprintf "x%d.%d.%d" (int_of_n a) (int_of_n s) (int_of_n h)
   | CapUnknown c -> Printf.sprintf "u%d" (int_of_n c)
 
 let open_token (c : cfg) : string =
@@ -96,16 +99,15 @@ let obs_token (y : sys) (sid : int) (outs : out list) : string =
     let adjs = if adj = [] then "-" else String.concat "." (List.map string_of_int adj) in
     let loc = List.sort compare (List.map (fun ((a, r), rw) ->
         Printf.sprintf "%d:%d%s" (int_of_n a) (int_of_n r) (if rw then "*" else "")) y.y_rib) in
-    let (c0, _) = List.nth y.y_sess 0 in
-    let asn = int_of_n (rc_count y.y_asn c0.c_las) > 0 in
+    let asns = String.concat "" (List.map (fun (ci, _) -> b01 (int_of_n (rc_count y.y_asn ci.c_las) > 0)) y.y_sess) in
     let cids = String.concat "" (List.map (fun (ci, _) ->
-        b01 (ci.c_rr && int_of_n (rc_count y.y_cid (cluster_of ci)) > 0)) y.y_sess) in
+        b01 (int_of_n (rc_count y.y_cid (cluster_of ci)) > 0)) y.y_sess) in
     let all = String.concat "" (List.map (fun (_, si) ->
         Printf.sprintf "%c%s" (st_letter si.s_st) (b01 si.s_att)) y.y_sess) in
     Printf.sprintf "%s/%c/%s/%c/%s/%d/%s/u%d/i%s|L%s/a%sk%s/c%d.%d/T%s" fr (st_letter s.s_st) (b01 s.s_att)
       (match s.s_conn with NoConn -> 'n' | ConnOpen _ -> 'o' | ConnClosed -> 'c')
       (if sent = [] then "-" else String.concat "+" sent) (int_of_n s.s_retry) negs (int_of_n s.s_upd) adjs
-      (if loc = [] then "-" else String.concat "," loc) (b01 asn) cids (int_of_n y.y_cl4) (int_of_n y.y_cl6) all
+      (if loc = [] then "-" else String.concat "," loc) asns cids (int_of_n y.y_cl4) (int_of_n y.y_cl6) all
   end
 
 let () =
